@@ -307,7 +307,7 @@ theorem codev_sentinel_sound (s wvl ssz : ℚ) :
 
 /-- Code V grid INT has no integrity information (the listed known finding, formalised): whenever a token list is accepted,
 the list with its last number replaced by ANY other number is accepted too — so a file cut inside its last number
-(`-21845` → `-2184`) cannot be told from a complete one by any reader of this grammar -/
+(`-16384` → `-1638`) cannot be told from a complete one by any reader of this grammar -/
 theorem codev_last_token_unprotected (t1 t2 : Nat) (wvl ssz : Float) (nda : Int) (ints : List Int) (z : Int) (h : ints ≠ []) :
     (cvReadF t1 t2 wvl ssz nda ints).isSome → (cvReadF t1 t2 wvl ssz nda (ints.dropLast ++ [z])).isSome := by
   have hl : (ints.dropLast ++ [z]).length = ints.length := by
